@@ -296,6 +296,53 @@ def unfitted_history_cases(run, small_cols, big_cols):
                         theorem="C09_cache_reset_on_preprocessing")
 
 
+def working_directory_cases(run, cols):
+    """the shipped training set is found by its label wherever the process
+    runs: in a working directory that holds a folder named like the label
+    (with other contents) the rating is what it is anywhere else"""
+    import os
+    import shutil
+    from nanite.rate import IndentationRater
+    src = IndentationRater.get_training_set_path("zef18")
+    d = common.scratch() / "c09-cwd"
+    shutil.rmtree(d, ignore_errors=True)
+    (d / "zef18").mkdir(parents=True)
+    for f in sorted(os.listdir(src)):
+        if f.startswith("train_"):
+            a = np.loadtxt(os.path.join(src, f))
+            if "response" in f:
+                a = 10 - a
+            np.savetxt(d / "zef18" / f, a)
+    old = os.getcwd()
+    for reg in ("Decision Tree", "Extra Trees"):
+        run.case({"scenario": "working-directory", "regressor": reg},
+                 kind="working-directory")
+        key = f"working-directory:{reg}"
+        try:
+            with warnings.catch_warnings():
+                warnings.simplefilter("ignore")
+                want = states(cols)["fitted"]().rate_quality(regressor=reg)
+                os.chdir(d)
+                try:
+                    got = states(cols)["fitted"]().rate_quality(
+                        regressor=reg)
+                    got2 = standalone(states(cols)["fitted"](), reg)
+                finally:
+                    os.chdir(old)
+            why = None
+            if got != want or got2 != want:
+                why = (f"rating {got} (standalone rater {got2}) in a working "
+                       f"directory that holds a folder 'zef18', {want} "
+                       "elsewhere")
+        except BaseException as e:
+            os.chdir(old)
+            why = f"raised {type(e).__name__}: {e}"
+        if why:
+            run.failing(SITE, key, f"{reg}: {why}", payload={"kind": "rerun"},
+                        theorem="C09_decision")
+    shutil.rmtree(d, ignore_errors=True)
+
+
 def memory_training_cases(run, cols):
     """an in-memory training set (X, y) used for several trainings in one
     process with a regressor that standardises its input: every fresh, equally
@@ -577,6 +624,7 @@ def check(run):
                    "Extra Trees", "AdaBoost"])
     selection_sequences(run, cols, big)
     unfitted_history_cases(run, cols, big)
+    working_directory_cases(run, big)
     memory_training_cases(run, big)
     override_cases(run, big)
     failed_request_cases(run, big)
